@@ -131,7 +131,11 @@ end
   `_transform_BoundConstVar` always answers for a bound const variable (instantiate or lower) and keeps
   the variable's own type `c.ty` untouched.  `ExistentialConstVar.transform` calls
   `transformer.transform(self.ty) or self.ty`: its type is rewritten only when it is itself a bound
-  type variable (the transformer is applied to the root only); `ConstValue` is returned unchanged. -/
+  type variable (the transformer is applied to the root only); `ConstValue` is returned unchanged.
+  Not modelled here (see Model/Instantiate.lean for C13's own complete copy): the `higher-rank`
+  InternalGuppyError of `ParametrizedTypeBase.__post_init__` when an opaque/struct type is rebuilt
+  with a parametrized function type argument, and `ConstBase.__post_init__` on a rebuilt
+  `ExistentialConstVar`. -/
 def Arg.asTy? : Arg → Option Ty | .ty t => some t | .const _ => none
 def Arg.asConst? : Arg → Option Const | .const c => some c | .ty _ => none
 
@@ -156,10 +160,11 @@ def Ty.inst (σ : List Arg) : Ty → Option Ty
   | .bvar n i c d => instVar σ n i c d
   | .evar n i c d => some (.evar n i c d)
   | .tuple ts p => do some (.tuple (← Ty.instList σ ts) p)
-  | .func ins o ps _cs =>
-      -- `FunctionType.transform` rebuilds `FunctionType(inputs', output', self.params)`; for an
-      -- unparametrized function the comptime args are recomputed from `params` (= none)
-      if ps.isEmpty then do some (.func (← FuncIn.instList σ ins) (← Ty.inst σ o) [] [])
+  | .func ins o ps cs =>
+      -- `FunctionType.transform` rebuilds `FunctionType(inputs', output', self.params,
+      -- comptime_args=[arg.transform(..)])` (comptime args kept since /repo commit a3b7e76)
+      if ps.isEmpty then do
+        some (.func (← FuncIn.instList σ ins) (← Ty.inst σ o) [] (← Const.instList σ cs))
       else Option.none
   | .opaque n as => do some (.opaque n (← Arg.instList σ as))
   | .struct n as fs => do some (.struct n (← Arg.instList σ as) fs)
@@ -186,6 +191,9 @@ def Const.inst (σ : List Arg) : Const → Option Const
         | _ => Option.none
       else some (.bvar t n (i - σ.length))  -- quirk: the variable's own type is NOT rewritten
   | .evar t n i => do some (.evar (← instRoot σ t) n i)
+def Const.instList (σ : List Arg) : List Const → Option (List Const)
+  | [] => some []
+  | t :: ts => do some ((← Const.inst σ t) :: (← Const.instList σ ts))
 end
 
 /-- `StructType.fields` (types only): the definition's fields instantiated with the arguments -/
